@@ -252,6 +252,7 @@ type BatchOpts struct {
 	NullOK     bool
 	NoHot      bool
 	Plain      bool // small-domain, never-null, never-empty tag values (criteria workloads)
+	SmallField bool // int fields in [-100,100] (rarely int64 extremes), float fields k/4: sums are exact in any order
 	FixedTimes []int64
 }
 
@@ -329,7 +330,18 @@ func (m *MeasureModel) GenBatch(tp *simcore.Tape, o BatchOpts, batchNo int) []*M
 			}
 		}
 		for _, f := range m.S.Fields {
-			r.Fields[f.Name] = GenField(tp, f.Type, o.NullOK)
+			switch {
+			case o.SmallField && f.Type == databasev1.FieldType_FIELD_TYPE_INT:
+				v := int64(tp.Range(-100, 100))
+				if tp.Bool(1, 40) {
+					v = []int64{1 << 40, -(1 << 40), 1<<62 - 1, -(1 << 62)}[tp.Choose(4)]
+				}
+				r.Fields[f.Name] = FInt(v)
+			case o.SmallField && f.Type == databasev1.FieldType_FIELD_TYPE_FLOAT:
+				r.Fields[f.Name] = FFloat(float64(tp.Range(-2000, 2000)) / 4)
+			default:
+				r.Fields[f.Name] = GenField(tp, f.Type, o.NullOK)
+			}
 		}
 		out = append(out, r)
 	}
